@@ -254,6 +254,14 @@ def process_fn(src: str, src_file: str, it: rustscan.Item, dirs: List[Directive]
             d = Directive(d.kind, d.arg, pl, d.line)
         resolved.append(d)
     dirs = resolved
+    # `//@ shapes "textA" "textB" ..`: the contracts were written for bodies that contain at least one of these texts
+    # (e.g. the variable an invariant has to name).  A body with none of them is a restructuring these contracts
+    # cannot read: undecided, never a verdict.
+    for d in dirs:
+        if d.kind == 'shapes':
+            alts = re.findall(r'"([^"]*)"', d.arg)
+            if alts and not any(a in body_src for a in alts):
+                raise Undecided('unsupported shape: %s contains none of %s (the loop invariants name program variables of the forms they were written for)' % (info.fn, ' / '.join(repr(a) for a in alts)))
     # --- D2: async / .await
     n_await = 0
     await_tok_idx = []
